@@ -64,7 +64,7 @@ def leaf_data(p):
             a[base % p["nan"] == 0] = np.nan
     else:
         a = (base + 1j * ((base * 7) % 5)).astype(dt)
-    return np.ascontiguousarray(a.reshape(shape))
+    return np.array(a.reshape(shape), order="C", copy=True)
 
 
 # ---------------------------------------------------------------------------------------------
@@ -680,11 +680,10 @@ def cu_eval_node(node, vals, env, idx):
             for off in itertools.product(range(2 * _d + 1), repeat=a.ndim):
                 sl = tuple(slice(o, o + s) for o, s in zip(off, core))
                 out = out + a[sl]
-            padw = [(_d, _d)] * a.ndim
-            return np.pad(out, padw)
+            return out
 
         return cubed.map_overlap(
-            winsum, ins[0], dtype=ins[0].dtype, chunks=ins[0].chunks, depth=d, boundary=p.get("boundary", 0), trim=True
+            winsum, ins[0], dtype=ins[0].dtype, chunks=ins[0].chunks, depth=d, boundary=p.get("boundary", 0)
         )
     if op == "gufunc_mean_last":
         return cubed.apply_gufunc(lambda a: np.mean(a, axis=-1), "(i)->()", ins[0], output_dtypes=np.float64)
@@ -739,7 +738,14 @@ def cu_build(recipe, env, upto=None):
     for i, node in enumerate(recipe["nodes"]):
         if upto is not None and i > upto:
             break
-        vals[i] = cu_eval_node(node, vals, env, i)
+        try:
+            vals[i] = cu_eval_node(node, vals, env, i)
+        except Exception as e:
+            try:
+                e._verif_node = i
+            except Exception:
+                pass
+            raise
     return vals
 
 
@@ -757,6 +763,8 @@ class Gen:
         self.dtypes = dtypes
         self.leaf_srcs = leaf_srcs or ["asarray", "asarray", "from_array", "from_zarr"]
         self.rejected = 0
+        self.maxsize = 1500
+        self.maxblocks = 60
         self.hostile = hostile  # extra weight on corners cubed may not support (C17)
         self.seedctr = seed * 7919
 
@@ -771,9 +779,19 @@ class Gen:
             )
             dtype = rng.choice(pool)
         self.seedctr += 1
+        chunks = draw_chunks(rng, shape)
+        # bound the number of blocks of a leaf
+        for _ in range(8):
+            nb = 1
+            for d, c in zip(shape, chunks):
+                nb *= max(1, -(-d // c))
+            if nb <= self.maxblocks:
+                break
+            j = max(range(len(shape)), key=lambda t: -(-shape[t] // chunks[t]))
+            chunks[j] = min(shape[j], chunks[j] * 2)
         p = {
             "shape": list(shape),
-            "chunks": draw_chunks(rng, shape),
+            "chunks": chunks,
             "dtype": dtype,
             "seed": self.seedctr,
             "src": rng.choice(self.leaf_srcs),
@@ -798,6 +816,10 @@ class Gen:
             except Exception:
                 self.rejected += 1
                 return None
+            # keep computations small: the cost of a run is ~10 ms per task
+            vs = v if isinstance(v, tuple) else (v,)
+            if any(getattr(x, "size", 1) > self.maxsize for x in vs):
+                return None
             nodes.append(node)
             vals[i] = v
             return i
@@ -805,6 +827,7 @@ class Gen:
         self._add = add
         self._nodes = nodes
         self._vals = vals
+        self._opaque = set()
         add(self.new_leaf())
         nops = nops if nops is not None else rng.randint(1, self.depth)
         tries = 0
@@ -832,13 +855,23 @@ class Gen:
             c = rng.choice(arr_idx)
             if c not in outs:
                 outs.append(c)
+        # a decomposition is judged as a whole: request all of its factors together
+        for c in list(outs):
+            if nodes[c]["op"] == "pick" and nodes[nodes[c]["in"][0]]["op"] in ("qr", "svd"):
+                parent = nodes[c]["in"][0]
+                for j, n in enumerate(nodes):
+                    if n["op"] == "pick" and n["in"][0] == parent and j not in outs:
+                        outs.append(j)
         recipe = {"nodes": nodes, "outputs": outs}
         return recipe, vals
 
     # -- choose an existing array node
     def pick_array(self, pred=None):
         rng = self.rng
-        cands = [i for i, v in self._vals.items() if isinstance(v, np.ndarray) and (pred is None or pred(v))]
+        cands = [
+            i for i, v in self._vals.items()
+            if isinstance(v, np.ndarray) and i not in self._opaque and (pred is None or pred(v))
+        ]
         if not cands:
             return None
         # prefer recent nodes
@@ -1256,9 +1289,11 @@ class Gen:
         if k is None:
             return False
         if op in ("qr", "svd"):
-            # consume the outputs
+            # consume the outputs; factors are unique only up to sign, so nothing is derived from them
             for t in range(len(self._vals[k])):
-                self._add({"op": "pick", "in": [k], "p": {"i": t}})
+                self._opaque.add(self._add({"op": "pick", "in": [k], "p": {"i": t}}))
+        else:
+            self._opaque.add(k)  # svdvals: compared sorted
         return True
 
     def fam_concat(self):
@@ -1279,7 +1314,11 @@ class Gen:
             for _ in range(k):
                 shape = list(a.shape)
                 shape[axis] = rng.randint(0 if rng.random() < 0.1 else 1, self.maxdim)
-                j = self._add(self.new_leaf(shape=shape, dtype=str(a.dtype)))
+                leaf = self.new_leaf(shape=shape, dtype=str(a.dtype))
+                if rng.random() < 0.75 and self._nodes[i]["op"] == "leaf":
+                    # same chunk size along the axis (cubed declines mismatching multi-chunk inputs)
+                    leaf["p"]["chunks"][axis] = max(1, min(self._nodes[i]["p"]["chunks"][axis], max(1, shape[axis])))
+                j = self._add(leaf)
                 if j is None:
                     return False
                 ins.append(j)
@@ -1387,7 +1426,16 @@ class Gen:
             a = self._vals[i]
             if a.ndim == 0 or a.size == 0:
                 return False
-            return self._add({"op": "map_overlap_sum3", "in": [i], "p": {"depth": rng.choice([1, 1, 2]), "boundary": rng.choice([0, 0, 5])}}) is not None
+            # cubed clamps halos at the array ends without padding interior blocks, so a halo deeper than
+            # the smallest chunk is not a well-defined request for a shape-preserving function: keep
+            # depth <= smallest chunk (known for leaves; depth 1 always satisfies it)
+            depth = 1
+            nd_ = self._nodes[i]
+            if nd_["op"] == "leaf":
+                mins = [min(c, d % c or c) for c, d in zip(nd_["p"]["chunks"], nd_["p"]["shape"]) if d > 0]
+                if mins and min(mins) >= 2 and rng.random() < 0.5:
+                    depth = 2
+            return self._add({"op": "map_overlap_sum3", "in": [i], "p": {"depth": depth, "boundary": rng.choice([0, 0, 5])}}) is not None
         if op == "gufunc_mean_last":
             i = self.pick_array(lambda v: v.ndim >= 1 and v.dtype.kind == "f" and v.shape[-1] > 0)
             if i is None:
